@@ -35,6 +35,12 @@ add("C04", "exploration",
     "Trusts EnumRNG and numpy; pi from the code's log_p_one; subtree-full for n>=3 is a recorded known finding, so new defects confined to that component and size are only caught through subtree-inner and n<=2.",
     "DESIGN.md section 5 C04")
 
+add("C08", "exploration",
+    "property-based testing: harness-enumerated placements vs reported proposal probabilities (normalisation, completeness), exact sampling law by outcome enumeration, weight telescoping identity along constrained paths",
+    "For generated parent states (0-4 top-level clones, outliers, 3 kernels, perm on/off) the proposal must sum to 1 over the independently enumerated placements, be sampled exactly as reported, and the constrained-path weights must match densities recomputed on independently built partial trees and the model's order counts.",
+    "Trusts EnumRNG, the harness' placement enumeration (count cross-checked against r + 2^r + outlier) and phyclone's joint density log_p (itself checked in C03).",
+    "DESIGN.md section 5 C08")
+
 NOT_APPLICABLE = []
 
 def main():
